@@ -743,7 +743,21 @@ func bigLE(a, b string) bool {
 func (x *Exec) jump(st *State, b *ssa.BasicBlock) (forks []*State, done bool) {
 	fr := st.frame()
 	li := x.loopsOf(fr.fn)
-	if k, isHeader := li.ordinal[b]; isHeader {
+	if k, isHeader := li.ordinal[b]; isHeader && x.boundedLoop(fr, k) {
+		// bounded mode: unroll; cut the path once the bound is exceeded (reported as bounded, never as proved)
+		key := fmt.Sprintf("unroll:%d:%d", len(st.frames), b.Index)
+		n := 0
+		if v, ok := st.heap[key]; ok {
+			n64, _ := isLitInt(v)
+			n = int(n64)
+		}
+		if n >= x.boundK() {
+			x.cuts++
+			st.dead = true
+			return nil, true
+		}
+		st.heap[key] = mkInt(int64(n + 1))
+	} else if isHeader {
 		if fr.entered[b] {
 			// back edge: invariant preserved, variant decreased; path ends
 			x.loopBackEdge(st, fr, b, k)
@@ -766,4 +780,20 @@ func (x *Exec) jump(st *State, b *ssa.BasicBlock) (forks []*State, done bool) {
 	fr.idx = 0
 	st.trail = append(st.trail, fmt.Sprintf("%d", b.Index))
 	return nil, false
+}
+
+func (x *Exec) boundK() int {
+	if x.spec != nil {
+		return x.spec.BoundK
+	}
+	return 0
+}
+
+// boundedLoop: in bounded mode a loop without an invariant is unrolled instead of cut.
+func (x *Exec) boundedLoop(fr *Frame, k int) bool {
+	if x.boundK() == 0 {
+		return false
+	}
+	ls, _ := x.loopSpecFor(fr.fn, k)
+	return ls == nil
 }
